@@ -967,6 +967,58 @@ def normalize(repo: Repo, ci: Optional[ClassInfo], fn: ast.FunctionDef, sf: Opti
     return out
 
 
+def resolve_flags(fn: ast.FunctionDef) -> ast.FunctionDef:
+    """Substitute boolean flag locals into the tests that read them:  `reuse = not loading; if reuse and ...` reads as
+    `if not loading and ...`.  Only locals bound once, whose defining expression is built from never-rebound names, constants,
+    `not`/and/or, identity tests against None and `bool(<name>)` are substituted, so moving the expression is meaning-preserving."""
+    from .packed import single_defs
+    stores: Dict[str, int] = {}
+    for n in ast.walk(fn):
+        if isinstance(n, ast.Name) and isinstance(n.ctx, (ast.Store, ast.Del)):
+            stores[n.id] = stores.get(n.id, 0) + 1
+    params = {a.arg for a in fn.args.args + fn.args.kwonlyargs}
+    stable = {p for p in params if stores.get(p, 0) == 0}
+    defs = single_defs(fn)
+
+    def movable(e: ast.expr, depth: int = 4) -> bool:
+        if isinstance(e, ast.Constant):
+            return True
+        if isinstance(e, ast.Name):
+            return e.id in stable or (depth > 0 and e.id in defs and movable(defs[e.id], depth - 1))
+        if isinstance(e, ast.UnaryOp) and isinstance(e.op, ast.Not):
+            return movable(e.operand, depth)
+        if isinstance(e, ast.BoolOp):
+            return all(movable(v, depth) for v in e.values)
+        if isinstance(e, ast.Compare) and len(e.ops) == 1 and isinstance(e.ops[0], (ast.Is, ast.IsNot)):
+            return movable(e.left, depth) and movable(e.comparators[0], depth)
+        if isinstance(e, ast.Call) and isinstance(e.func, ast.Name) and e.func.id == "bool" and len(e.args) == 1 and not e.keywords:
+            return movable(e.args[0], depth)
+        return False
+    flags = {k: v for k, v in defs.items() if not isinstance(v, (ast.Name, ast.Constant)) and movable(v)}
+    if not flags:
+        return fn
+
+    class Sub(ast.NodeTransformer):
+        def visit_Name(self, node):
+            if isinstance(node.ctx, ast.Load) and node.id in flags:
+                v = self.visit(copy.deepcopy(flags[node.id]))
+                if isinstance(v, ast.Call):         # bool(x) in a test is x
+                    v = v.args[0]
+                return v
+            return node
+
+    class Tests(ast.NodeTransformer):
+        def _t(self, node):
+            self.generic_visit(node)
+            node.test = Sub().visit(node.test)
+            return node
+        visit_If = visit_While = visit_IfExp = _t
+    out = copy.deepcopy(fn)
+    Tests().visit(out)
+    ast.fix_missing_locations(out)
+    return out
+
+
 # ------------------------------------------------------------------------------------ attribution of private helpers
 def _all_functions(tree: ast.AST):
     def rec(node, prefix):
